@@ -220,3 +220,46 @@ func (h *Runner) CheckChain(c *common.Ctx) {
 		}
 	}
 }
+
+// CoqCase renders the whole history as one case of Model/PageDB.v: (lock page, op groups, observed rows).
+func (h *Runner) CoqCase() string {
+	s := fmt.Sprintf("(%d, [", lfs.LockPgno(h.Cfg.PageSize))
+	for i, ob := range h.Obs {
+		if i > 0 {
+			s += ";\n  "
+		}
+		s += "["
+		for j, o := range ob.Ops {
+			if j > 0 {
+				s += "; "
+			}
+			s += o
+		}
+		s += "]"
+	}
+	s += "],\n ["
+	for i, ob := range h.Obs {
+		if i > 0 {
+			s += "; "
+		}
+		code := 0
+		switch {
+		case ob.Panic != "":
+			code = 3
+		case len(ob.Exits) > 0:
+			code = 2
+		case ob.Err != "":
+			code = 1
+		}
+		mode := ob.Mode
+		n := 0
+		for range ob.LTX {
+			n++
+		}
+		s += fmt.Sprintf("[%d;%d;%d;%d;%d;%d]", code, ob.TXID, ob.Chk, ob.PageN, mode, n)
+	}
+	return s + "])"
+}
+
+const CoqHeader = "Require Import LF.Model.PageDB.\nLocal Open Scope N_scope."
+const CoqType = "N * list (list op) * list (list N)"
